@@ -60,6 +60,11 @@ def handle : List String → String
     | some ds, some rs =>
       showR (fun s => "ok " ++ showHex s) (ean13SymbolRead Ref.UPCEAN.ean13FirstDigit (ds.zip (flags gs)) rs)
     | _, _ => "bad-op"
+  | ["upcaread", ds, gs, rs] =>
+    match digitVals? ds, digitVals? rs with
+    | some ds, some rs =>
+      showR (fun s => "ok " ++ showHex s) (upcaSymbolRead Ref.UPCEAN.ean13FirstDigit (ds.zip (flags gs)) rs)
+    | _, _ => "bad-op"
   | ["ean8read", ds] =>
     match digitVals? ds with
     | some ds => showR (fun s => "ok " ++ showHex s) (ean8SymbolRead ds)
